@@ -1,3 +1,207 @@
-(* C06 — placeholder until JsonSchema.v / Mapping.v are integrated. *)
-From Sebuf Require Import Text.
-Example C06_placeholder : True. Proof. exact I. Qed.
+(* C06 — wire JSON validates against the generated OpenAPI.
+   Model: Codec.encode / ProtoJson.pj_marshal (what the Go server and the Go client put on the wire; C04/C05),
+   OpenApi.v (the document protoc-gen-openapiv3 emits, read back under a YAML 1.2 reader), JsonSchema.validates
+   (JSON Schema 2020-12), Conform.v (wire_jv: canonical wire JSON -> validator instances; und: the
+   "property no schema describes" walk; defects_C06; predict_C06).
+   Statements only; proofs in proofs/ConformFacts.v.
+
+   What is theorem-backed: scalars of all 15 kinds and enums (all values), their lift through singular /
+   optional / repeated / map fields and through object schemas to whole messages of the PLAIN fragment
+   (no sebuf annotation reachable from the value: MappingFacts.plain_top / plain_in; messages without oneof
+   members: ProtoJsonFacts.wt), no undescribed property at any depth for the same fragment, the default value,
+   the built-in error bodies, URL values.  What is not: messages with annotations (int64 NUMBER, nullable,
+   empty_behavior, timestamp_format, bytes_encoding, flatten, discriminated oneof, unwrap) outside the defect
+   classes — covered by the correspondence run only (C06_message_valid_full below is not proved).
+   P is any regex matcher and any format checker that treats the wire-encoding formats as annotations;
+   E is any float/time library whose finite floats print as JSON numbers (Ext.law_fprint_num). *)
+From Sebuf Require Import Conform.
+From Sebuf Require Import Errors.
+From SebufProofs Require Import ProtoJsonFacts CodecExamples MappingFacts ConformFacts.
+
+(* (a) leaves: for each of the 15 scalar kinds and every typed value outside the defect classes (NaN / Inf),
+   the proto3 JSON rendering validates against the schema convertScalarField publishes for the kind:
+   32-bit integers as JSON integers (unsigned: minimum 0), 64-bit integers as decimal strings, finite
+   floats as numbers, bool, string, bytes as base64 text. *)
+Theorem C06_scalar_valid : forall (E : ExtLib) (sc : schema) (P : vparams) (cst : list (str * jschema))
+    (k : kind) (x : sval) (j : json) (fu n : nat),
+  fprint_is_number E -> wire_formats_are_annotations P ->
+  is_scalar_kind k = true -> wt_scalar sc k x = true -> scalar_issues sc k x = [] ->
+  pj_scalar E sc k x = ROk j ->
+  validates P cst (S n) (rd fu (elem_node sc k)) (wire_jv j) = VOk true.
+Proof. exact scalar_valid_all. Qed.
+Print Assumptions C06_scalar_valid.
+
+(* enums without custom values: a defined number is sent as its name, and the name is one of the listed
+   names (provided the name reads back as a string from the untagged YAML scalar) *)
+Theorem C06_enum_valid : forall (E : ExtLib) (sc : schema) (P : vparams) (cst : list (str * jschema))
+    (tn : str) (n0 : Z) (j : json) (fu n : nat),
+  wt_scalar sc (KEnum tn) (VEnum n0) = true -> scalar_issues sc (KEnum tn) (VEnum n0) = [] ->
+  plain_enum sc (KEnum tn) = true ->
+  pj_scalar E sc (KEnum tn) (VEnum n0) = ROk j ->
+  validates P cst (S n) (rd fu (elem_node sc (KEnum tn))) (wire_jv j) = VOk true.
+Proof. exact enum_valid. Qed.
+Print Assumptions C06_enum_valid.
+
+(* elem_node IS what the generator publishes for the elements of any field without annotations *)
+Theorem C06_scalar_valid_field : forall (E : ExtLib) (sc : schema) (P : vparams) (cst : list (str * jschema))
+    (mn : str) (f : field) (x : sval) (j : json) (fu n : nat),
+  fprint_is_number E -> wire_formats_are_annotations P ->
+  MappingFacts.plain_field f = true -> is_msgk (f_kind f) = false ->
+  wt_scalar sc (f_kind f) x = true -> scalar_issues sc (f_kind f) x = [] -> plain_enum sc (f_kind f) = true ->
+  pj_scalar E sc (f_kind f) x = ROk j ->
+  validates P cst (S n) (rd fu (convert_scalar sc no_side mn f)) (wire_jv j) = VOk true.
+Proof. exact scalar_valid_field. Qed.
+Print Assumptions C06_scalar_valid_field.
+
+(* (b) cardinalities: one populated field — singular, optional, repeated (array + items), map (object +
+   additionalProperties) — against convertField's schema; nested messages through their $ref *)
+Theorem C06_field_valid : forall (E : ExtLib) (sc : schema) (P : vparams) (cs : list (str * ynode))
+    (mn : str) (f : field) (x : fval) (j : json) (fu n : nat),
+  fprint_is_number E -> wire_formats_are_annotations P ->
+  find_message (all_messages sc) ts_name = None ->
+  MappingFacts.plain_field f = true -> need x <= n ->
+  wt_entry sc f x = true -> plain_in sc (f_kind f) x = true -> walk sc no_side cs (f_kind f) x = [] ->
+  pj_fval E sc (f_kind f) x = ROk j ->
+  validates P (doc_components reader12 cs) (S n) (rd (S fu) (convert_field sc no_side mn f)) (wire_jv j) = VOk true.
+Proof. exact field_valid. Qed.
+Print Assumptions C06_field_valid.
+
+(* (b) whole bodies, plain fragment: the JSON the server / client sends (Codec.encode), which is also the
+   documented form (Mapping.to_json), validates against the schema the operation refers to, with the
+   components of the document; fuel never runs out from need (FM m) on. *)
+Theorem C06_message_valid_partial : forall (E : ExtLib) (sc : schema) (P : vparams) (cs : list (str * ynode))
+    (tn : str) (m : mval) (j : json),
+  fprint_is_number E -> wire_formats_are_annotations P ->
+  find_message (all_messages sc) ts_name = None -> str_eqb tn ts_name = false ->
+  plain_top sc tn = true -> plain_in sc (KMessage tn) (FM m) = true ->
+  wt sc (KMessage tn) (FM m) = true ->
+  defects_C06 sc no_side cs tn m = [] ->
+  (encode E sc tn m = ROk j \/ Mapping.to_json E sc tn m = ROk j) ->
+  forall fuel, need (FM m) <= fuel ->
+  validates P (doc_components reader12 cs) fuel (body_schema tn) (wire_jv j) = VOk true.
+Proof. exact message_valid. Qed.
+Print Assumptions C06_message_valid_partial.
+
+(* full statement (not proved: messages carrying sebuf annotations are covered by the correspondence run) *)
+Definition C06_message_valid_full : Prop := forall E sc sd cs tn m j,
+  fprint_is_number E -> wt sc (KMessage tn) (FM m) = true ->
+  defects_C06 sc sd cs tn m = [] -> encode E sc tn m = ROk j ->
+  validates P06 (doc_components reader12 cs) c06_fuel (body_schema tn) (wire_jv j) = VOk true /\
+  und P06 (doc_components reader12 cs) und_fuel c06_fuel (body_schema tn) (wire_jv j) = 0.
+
+(* (c) same fragment: no property, at any depth, that the schema in force there does not describe *)
+Theorem C06_no_undeclared_property_partial : forall (E : ExtLib) (sc : schema) (P : vparams) (cs : list (str * ynode))
+    (tn : str) (m : mval) (j : json),
+  fprint_is_number E ->
+  find_message (all_messages sc) ts_name = None -> str_eqb tn ts_name = false ->
+  plain_top sc tn = true -> plain_in sc (KMessage tn) (FM m) = true ->
+  wt sc (KMessage tn) (FM m) = true ->
+  defects_C06 sc no_side cs tn m = [] ->
+  (encode E sc tn m = ROk j \/ Mapping.to_json E sc tn m = ROk j) ->
+  forall uf vf, und P (doc_components reader12 cs) uf vf (body_schema tn) (wire_jv j) = 0.
+Proof. exact message_described. Qed.
+Print Assumptions C06_no_undeclared_property_partial.
+
+Theorem C06_keys_declared : forall (E : ExtLib) (sc : schema) (tn : str) (md : message) (m : mval) (es : list (str * json)),
+  str_eqb tn ts_name = false -> is_wkt_other tn = false ->
+  find_message (all_messages sc) tn = Some md ->
+  plain_top sc tn = true -> plain_in sc (KMessage tn) (FM m) = true ->
+  encode E sc tn m = ROk (JObj es) ->
+  forall key, In key (map fst es) -> In key (component_property_names sc md).
+Proof. exact message_keys_declared. Qed.
+Print Assumptions C06_keys_declared.
+
+(* (d) satisfiability: the default value of every un-annotated message is sent as {} and validates; a
+   fully populated value validates by C06_message_valid_partial whenever one exists outside the defect
+   classes (C06_nonvacuous exhibits one with nested, repeated and map fields; existence for every schema —
+   recursive types, enums with a single value — is not proved) *)
+Theorem C06_satisfiable_partial : forall (E : ExtLib) (sc : schema) (P : vparams) (cs : list (str * ynode)) (tn : str) (md : message),
+  fprint_is_number E -> wire_formats_are_annotations P ->
+  find_message (all_messages sc) ts_name = None -> str_eqb tn ts_name = false -> is_wkt_other tn = false ->
+  find_message (all_messages sc) tn = Some md -> msg_ok md = true ->
+  plain_top sc tn = true ->
+  defects_C06 sc no_side cs tn [] = [] ->
+  encode E sc tn [] = ROk (JObj []) /\
+  forall fuel, 3 <= fuel -> validates P (doc_components reader12 cs) fuel (body_schema tn) (wire_jv (JObj [])) = VOk true.
+Proof. exact default_valid. Qed.
+Print Assumptions C06_satisfiable_partial.
+
+(* (e) error bodies against the built-in components (present in every document unless a message takes
+   their name) *)
+Theorem C06_builtin_components : forall (sets : list (str * ynode)),
+  (forall e, In e sets -> mem_str (fst e) builtin_names = false) ->
+  builtin_ok (doc_components reader12 (components_of_sets sets)).
+Proof. exact builtin_ok_no_collision. Qed.
+Print Assumptions C06_builtin_components.
+
+Theorem C06_error_bodies : forall (P : vparams) (cst : list (str * jschema)), builtin_ok cst ->
+  (forall msg fuel, 3 <= fuel ->
+     validates P cst fuel (SObj [KwRef (s "Error")]) (wire_jv (error_body msg)) = VOk true) /\
+  (forall vs fuel, defects_C06_verr vs = [] -> 6 <= fuel ->
+     validates P cst fuel (SObj [KwRef (s "ValidationError")]) (wire_jv (validation_body vs)) = VOk true).
+Proof. exact error_bodies_valid. Qed.
+Print Assumptions C06_error_bodies.
+Theorem C06_refuted_validation_without_violations :
+  defects_C06_verr [] = [s "validation-error-without-violations"] /\
+  validates P06 (doc_components reader12 (components_of_sets [])) c06_fuel (SObj [KwRef (s "ValidationError")]) (wire_jv (validation_body [])) = VOk false.
+Proof. exact refuted_validation_without_violations. Qed.
+Theorem C06_refuted_violation_empty_member :
+  defects_C06_verr [(s "a", [])] = [s "violation-with-empty-member"] /\
+  validates P06 (doc_components reader12 (components_of_sets [])) c06_fuel (SObj [KwRef (s "ValidationError")]) (wire_jv (validation_body [(s "a", [])])) = VOk false.
+Proof. exact refuted_violation_empty_member. Qed.
+
+(* URL values (path, query) of every kind the client can format *)
+Theorem C06_params_valid : forall (P : vparams) (sc : schema) (k : kind) (v : sval),
+  wire_formats_are_annotations P ->
+  is_scalar_kind k = true -> k <> KBytes -> wt_scalar sc k v = true -> defects_C06_param k v = [] ->
+  forall fuel, 1 <= fuel -> validates P [] fuel (typed (param_schema k)) (param_jv k v) = VOk true.
+Proof. exact param_valid. Qed.
+Print Assumptions C06_params_valid.
+
+(* the hypotheses on E and P are satisfiable: the library instance and the parameters of the correspondence run *)
+Theorem C06_hypotheses_inhabited :
+  (forall E, ExtLaws E -> fprint_is_number E) /\ fprint_is_number Ex /\ wire_formats_are_annotations P06.
+Proof. exact (conj ext_laws_fprint (conj Ex_fprint_is_number P06_formats)). Qed.
+Print Assumptions C06_hypotheses_inhabited.
+
+(* (f) refutations: refuted6 d tag tn m valid und = the case lies in exactly the class [tag], and the
+   model's wire JSON fails validation (valid = false) or carries und > 0 undescribed properties *)
+Theorem C06_refuted_nan : refuted6 c6doc D6NonFinite (c6q "Full") [(s "ratio", FS (VFloat nan64))] false 0.
+Proof. exact refuted_nan. Qed.
+Print Assumptions C06_refuted_nan.
+Theorem C06_refuted_enum_custom_value : refuted6 c6doc (D6Wire D5EnumValue) (c6q "WithEnum") [(s "status", FS (VEnum 1))] false 0.
+Proof. exact refuted_enum_custom_value. Qed.
+Theorem C06_refuted_enum_unknown_number : refuted6 c6doc D6EnumUnknownNumber (c6q "Full") [(s "color", FS (VEnum 7))] false 0.
+Proof. exact refuted_enum_unknown_number. Qed.
+Theorem C06_refuted_enum_name_untagged : refuted6 c6doc D6EnumNameUntagged (c6q "Flag") [(s "t", FS (VEnum 1))] false 0.
+Proof. exact refuted_enum_name_untagged. Qed.
+Theorem C06_refuted_nested_int64_number : refuted6 c6doc (D6Wire (D5Pj AInt64)) (c6q "NumsHolder") [(s "inner", FM [(s "big", vint 5)])] false 0.
+Proof. exact refuted_nested_int64_number. Qed.
+(* every instance is valid under each oneOf branch: even the default value fails, the component is unsatisfiable *)
+Theorem C06_refuted_nested_oneof_ambiguous : refuted6 c6doc D6NestedOneofAmbiguous (c6q "Event") [] false 0.
+Proof. exact refuted_nested_oneof_ambiguous. Qed.
+Theorem C06_refuted_nested_oneof_ambiguous_set :
+  refuted6 c6doc D6NestedOneofAmbiguous (c6q "Event") [(s "eid", vstr "e"); (s "text", FM [(s "body", vstr "b")])] false 0.
+Proof. exact refuted_nested_oneof_ambiguous_set. Qed.
+Theorem C06_refuted_flat_oneof_unset : refuted6 c6doc D6FlatOneofUnset (c6q "FlatEvent") [(s "eid", vstr "e")] false 1.
+Proof. exact refuted_flat_oneof_unset. Qed.
+Theorem C06_refuted_root_unwrap_nil : refuted6 c6doc (D6Wire D5RootNull) (c6q "Strs") [] false 0.
+Proof. exact refuted_root_unwrap_nil. Qed.
+Theorem C06_refuted_short_name_collision :
+  refuted6 c6doc_col D6ShortNameCollision (c6q "Outer") [(s "l", FM [(s "a", vstr "x")])] true 1.
+Proof. exact refuted_short_name_collision. Qed.
+Print Assumptions C06_refuted_short_name_collision.
+
+(* non-vacuity: a fully populated value with nested, repeated and map fields satisfies every hypothesis
+   of C06_message_valid_partial / C06_no_undeclared_property_partial, on the components of a service's document *)
+Example C06_nonvacuous :
+  hyps6 (c6q "Full") full_value /\
+  (exists md, find_message (all_messages c6s) (c6q "Full") = Some md /\ all_populated md full_value = true) /\
+  cd_tcs c6doc = doc_components reader12 (cd_cs c6doc) /\
+  exists j, encode Ex c6s (c6q "Full") full_value = ROk j /\
+            (forall fuel, need (FM full_value) <= fuel ->
+               validates P06 (cd_tcs c6doc) fuel (body_schema (c6q "Full")) (wire_jv j) = VOk true) /\
+            (forall uf vf, und P06 (cd_tcs c6doc) uf vf (body_schema (c6q "Full")) (wire_jv j) = 0) /\
+            need (FM full_value) = 7.
+Proof. exact nonvacuous. Qed.
+Print Assumptions C06_nonvacuous.
